@@ -995,3 +995,21 @@ def c_pick(seed):
     return Case('dd.bdd.BDD.pick!observed', seed, inner.build, lambda e: e['b'].pick(e['u'], e['care']), inner.zargs,
                 lambda e: dict(call='pick', u=e['u'], care_vars=sorted(e['care']) if e['care'] is not None else None),
                 ret=lambda e, r: None if r is None else zdict(r, 'name', 'bool'))
+
+
+# ---------------------------------------------------------------------------------------------------------------------
+# pickle loader recursion: the dumped node table is the `_succ` of another real manager
+@case('dd.bdd.BDD._load')
+def c_load(seed):
+    def build(rnd):
+        env = new_manager(rnd)                        # source: its node table plays the file
+        src = env['b']
+        t = second_manager(rnd, env['names'])       # receiving manager declares (at least) the same names, other order
+        level_map = {src.vars[nm]: t.vars[nm] for nm in src.vars}
+        env.update(t=t, u=any_ref(env, rnd), succ=dict(src._succ), umap=dict(), level_map=level_map)
+        return env
+    return Case('dd.bdd.BDD._load', seed, build, lambda e: e['t']._load(e['u'], e['succ'], e['umap'], e['level_map']),
+                lambda e, st: dict(self=st['self'], u=zint(e['u']), succ=st['F'], succ_key='F', umap=zdict({}, 'int', 'int'),
+                                   level_map=zdict(e['level_map'], 'int', 'int')),
+                lambda e: dict(call='_load', u=e['u'], level_map=e['level_map'], source_vars=dict(e['b'].vars), target_vars=dict(e['t'].vars)),
+                muts=memo_muts('umap', lambda d: zdict(d, 'int', 'int')), managers=lambda e: {'self': e['t'], 'F': e['b']}, primary='self')
